@@ -111,6 +111,11 @@ theorem new_refused (cmp : Nat → Nat → Int) (cap : Nat) (exGe : Nat → Bool
   · exact ⟨e, e2, e3⟩
   · exact (h e).elim
 
+/-- an accepted capacity is ≥ 1 and its buffer size in bytes, `capacity * sizeof(void*)`, does not
+wrap around `size_t` (the constructor rejects larger capacities) -/
+theorem new_capacity_bytes (cap : Nat) (exGe : Nat → Bool) (m : Mem) (h : (PQueue.new cap exGe m).1 = .ok) :
+    0 < cap ∧ cap * PQueue.ptrSize < 2 ^ 64 := PQueue.new_ok_bytes cap exGe m h
+
 /-- **Refused growth is atomic** in the strongest sense: status `CC_ERR_ALLOC` (or
 `CC_ERR_MAX_CAPACITY`) means that every field of the queue is unchanged -/
 theorem push_refused_inert {cmp : Nat → Nat → Int} (tp : TotalPreorder cmp) (grow : Nat → Nat) (hg : PQueue.GrowOk grow)
